@@ -247,11 +247,12 @@ func (s *Sixel) Destroy() {
 // separate gorotuine. A Redraw event will be posted when complete
 func (s *Sixel) Resize(w int, h int) {
 	atomicStore(&s.encoding, true)
+	// read the window size here, not in the goroutine: Render writes it
+	cellPixW := s.vx.winSize.XPixel / s.vx.winSize.Cols
+	cellPixH := s.vx.winSize.YPixel / s.vx.winSize.Rows
 	go func() {
 		defer atomicStore(&s.encoding, false)
 		// Resize the image
-		cellPixW := s.vx.winSize.XPixel / s.vx.winSize.Cols
-		cellPixH := s.vx.winSize.YPixel / s.vx.winSize.Rows
 		img := resizeImage(s.img, w, h, cellPixW, cellPixH)
 		max := img.Bounds().Max
 		s.w = max.X / cellPixW
